@@ -141,10 +141,69 @@ pub static TABLE_OPS: &[OpSpec] = &[
     OpSpec { code: table::REMOVE_NTH, name: "remove_nth", args: &[Frac] },
 ];
 
+pub mod set {
+    pub const INSERT: u16 = 0;
+    pub const INSERT_RANGE: u16 = 1;
+    pub const REPLACE: u16 = 2;
+    pub const REMOVE: u16 = 3;
+    pub const GET_OR_INSERT: u16 = 4;
+    pub const GET_OR_INSERT_WITH: u16 = 5;
+    pub const GET: u16 = 6;
+    pub const ENTRY: u16 = 7;
+    pub const SWAP: u16 = 8;
+    pub const ALGEBRA: u16 = 9;
+    pub const PREDICATES: u16 = 10;
+    pub const OPERATORS: u16 = 11;
+    pub const ASSIGN: u16 = 12;
+    pub const EXTEND: u16 = 13;
+    pub const RETAIN: u16 = 14;
+    pub const EXTRACT_IF: u16 = 15;
+    pub const DRAIN: u16 = 16;
+    pub const CLEAR: u16 = 17;
+    pub const SHRINK_TO_FIT: u16 = 18;
+    pub const RESERVE: u16 = 19;
+    pub const ITER: u16 = 20;
+    pub const FILL_TO_CAPACITY: u16 = 21;
+    pub const REMOVE_RUN: u16 = 22;
+    pub const CLONE: u16 = 23;
+    pub const MIRROR: u16 = 24;
+    pub const REBUILD: u16 = 25;
+}
+
+pub static SET_OPS: &[OpSpec] = &[
+    OpSpec { code: set::INSERT, name: "insert", args: &[Key] },
+    OpSpec { code: set::INSERT_RANGE, name: "insert_range", args: &[Key, Small(24)] },
+    OpSpec { code: set::REPLACE, name: "replace", args: &[Key] },
+    OpSpec { code: set::REMOVE, name: "remove", args: &[Key, Choice(3)] },
+    OpSpec { code: set::GET_OR_INSERT, name: "get_or_insert", args: &[Key] },
+    OpSpec { code: set::GET_OR_INSERT_WITH, name: "get_or_insert_with", args: &[Key, Bool] },
+    OpSpec { code: set::GET, name: "get", args: &[Key] },
+    OpSpec { code: set::ENTRY, name: "entry", args: &[Key, Choice(8)] },
+    OpSpec { code: set::SWAP, name: "swap", args: &[] },
+    OpSpec { code: set::ALGEBRA, name: "algebra", args: &[Choice(4), Bool, Choice(4), Any] },
+    OpSpec { code: set::PREDICATES, name: "predicates", args: &[] },
+    OpSpec { code: set::OPERATORS, name: "operators", args: &[Choice(4), Bool] },
+    OpSpec { code: set::ASSIGN, name: "assign", args: &[Choice(4)] },
+    OpSpec { code: set::EXTEND, name: "extend", args: &[Key, Small(24)] },
+    OpSpec { code: set::RETAIN, name: "retain", args: &[Any, Small(100)] },
+    OpSpec { code: set::EXTRACT_IF, name: "extract_if", args: &[Any, Small(100), Frac] },
+    OpSpec { code: set::DRAIN, name: "drain", args: &[Frac, Choice(2)] },
+    OpSpec { code: set::CLEAR, name: "clear", args: &[] },
+    OpSpec { code: set::SHRINK_TO_FIT, name: "shrink_to_fit", args: &[] },
+    OpSpec { code: set::RESERVE, name: "reserve", args: &[Small(96)] },
+    OpSpec { code: set::ITER, name: "iter", args: &[Choice(2), Frac, Choice(6)] },
+    OpSpec { code: set::FILL_TO_CAPACITY, name: "fill_to_capacity", args: &[] },
+    OpSpec { code: set::REMOVE_RUN, name: "remove_run", args: &[Frac, Small(40)] },
+    OpSpec { code: set::CLONE, name: "clone", args: &[Bool] },
+    OpSpec { code: set::MIRROR, name: "mirror", args: &[Any] },
+    OpSpec { code: set::REBUILD, name: "rebuild", args: &[] },
+];
+
 pub fn specs_for(kind: &str) -> &'static [OpSpec] {
     match kind {
         "map" => MAP_OPS,
         "table" => TABLE_OPS,
+        "set" => SET_OPS,
         _ => &[],
     }
 }
